@@ -92,7 +92,12 @@ pub fn gen(seed: u64, count: usize, thorough: bool, tie_heavy: bool) -> String {
                 // an outlier more than 584 years ahead; sometimes cancelled right away, else before the drain
                 val += 1;
                 let off: i128 = (1i128 << 64) * r.range(1, 40) as i128 + r.below(1u64 << 40) as i128 * t as i128 + r.below(3) as i128;
-                writeln!(out, "add {off} {val}").unwrap();
+                if r.chance(1, 4) {
+                    // the very last instant: Duration::MAX, the timestamp of the bucket lists' tail sentinel
+                    writeln!(out, "add max {val}").unwrap();
+                } else {
+                    writeln!(out, "add {off} {val}").unwrap();
+                }
                 vals.push(val);
                 adds += 1;
                 if r.chance(1, 2) {
@@ -120,8 +125,13 @@ pub fn gen(seed: u64, count: usize, thorough: bool, tie_heavy: bool) -> String {
         }
         // far-future outliers (beyond 2^64 ns; bucket slot numbers exceed 64 bits for small widths): only ever added
         // and cancelled — all still pending ones are cancelled before the drain
+        // (one case in four leaves them pending: the drain then stops at `skipped-outlier-pending` and the queue is
+        // dropped with the outliers still in it)
+        let keep_far = r.chance(1, 4);
         for v in far_vals.drain(..) {
-            writeln!(out, "cancel {v}").unwrap();
+            if !keep_far {
+                writeln!(out, "cancel {v}").unwrap();
+            }
         }
         // drain completely in most cases
         if r.chance(3, 4) {
@@ -155,10 +165,11 @@ pub fn exec(input: &str) -> String {
             let mut res = String::new();
             match tok.as_slice() {
                 ["add", d, v] => {
-                    let d: i128 = d.parse().unwrap_or(0);
+                    let is_max = *d == "max";
+                    let d: i128 = if is_max { FAR } else { d.parse().unwrap_or(0) };
                     let v: u64 = v.parse().unwrap_or(0);
-                    let abs = (cur + d).max(0) as u128;
-                    let dur = Duration::new((abs / 1_000_000_000) as u64, (abs % 1_000_000_000) as u32);
+                    let abs = if is_max { Duration::MAX.as_nanos() } else { (cur + d).max(0) as u128 };
+                    let dur = if is_max { Duration::MAX } else { Duration::new((abs / 1_000_000_000) as u64, (abs % 1_000_000_000) as u32) };
                     match guarded(|| q.add(dur, v)) {
                         Ok(h) => {
                             handles.push((v, Some(h)));
